@@ -429,7 +429,10 @@ fn check_edit(h: &CaseH, c: &EditCase) -> Verdict {
             "NAME-FRAME" => m0.cons.frames.iter().any(|x| x.name == name),
             "GAP" => m0.cons.wincons.iter().any(|x| x.name == name),
             // schedules and conditions are all carried over, used or not: live = some item of the model links to it
-            "DAY-SCHEDULE-PD" => m0.schedules.day.iter().filter(|x| x.name == name).any(|d| m0.schedules.week.iter().any(|w| w.values.iter().any(|(id, _)| *id == d.id))),
+            // every weekly schedule of the text is carried over and each of its seven day entries has to resolve: the
+            // definition is live when a WEEK-SCHEDULE-PD block of the text names it (at any weekday), judged from
+            // the source, not from the model under test
+            "DAY-SCHEDULE-PD" => m0.schedules.day.iter().any(|x| x.name == name) && named_in_block_of_type(&text, "WEEK-SCHEDULE-PD", &name),
             "WEEK-SCHEDULE-PD" => m0.schedules.week.iter().filter(|x| x.name == name).any(|w| m0.schedules.year.iter().any(|y| y.values.iter().any(|(id, _)| *id == w.id))),
             "SCHEDULE-PD" => m0.schedules.year.iter().filter(|x| x.name == name).any(|y| {
                 m0.loads.iter().any(|l| [l.people_schedule, l.equipment_schedule, l.lighting_schedule].contains(&Some(y.id))) || m0.thermostats.iter().any(|t| [t.temp_max, t.temp_min].contains(&Some(y.id)))
@@ -538,6 +541,35 @@ fn check_edit(h: &CaseH, c: &EditCase) -> Verdict {
         }
         Err(p) => Verdict::from_panic("C02:convert-edited", &p),
     }
+}
+
+/// true when a block of the given type in the BDL text contains the quoted name among its attribute values
+fn named_in_block_of_type(text: &str, bty: &str, name: &str) -> bool {
+    let quoted = format!("\"{}\"", name);
+    let mut inside = false;
+    for l in text.lines() {
+        let t = l.trim();
+        if !inside {
+            if let Some((_, v)) = t.split_once('=') {
+                if t.starts_with('"') && v.trim() == bty {
+                    inside = true;
+                }
+            }
+        } else {
+            if t == ".." {
+                inside = false;
+                continue;
+            }
+            let t_end = t.ends_with("..");
+            if t.contains(&quoted) {
+                return true;
+            }
+            if t_end {
+                inside = false;
+            }
+        }
+    }
+    false
 }
 
 pub fn run(args: &Args) -> ! {
